@@ -145,6 +145,7 @@ def strategy_(draw, tier):
     for b in bounds[:-1][:3]:
         spec["requests"].append([max(0, b - 512), 1024])
     spec["requests"].append([max(0, total - 700), 2000])
+    spec["flavours"] = draw(st.booleans())
     return spec
 
 
@@ -154,7 +155,9 @@ def strategy(tier):
 
 def scratch_dir():
     root = os.environ.get("VERIF_SCRATCH") or ("/dev/shm" if os.path.isdir("/dev/shm") else None)
-    return tempfile.mkdtemp(prefix="c10-", dir=root)
+    from hv.core import case_dir
+
+    return case_dir("c10", root)
 
 
 def straddles(spec, bounds):
